@@ -21,5 +21,27 @@ claim(
     TB + "; extension loading (user-supplied extension modules) is cut from the reachability with the reason tabled in the rule; "
     "by-name CHA over-approximates callees",
 )
+claim(
+    "C06",
+    "typestate on call-graph cycles (visited-set guard / re-entrancy flag pairing on the CFG), exception-flow analysis "
+    "(may-raise summaries over the call graph, hierarchy-aware handlers) for alias dereference sites, store-ordering dominance",
+    "Structural reasons behind C06 decided on every path: each recursion that walks the import/alias/inheritance graph is cut by a "
+    "membership test + insertion on the same key and collection (or the re-entrancy flag, reset in a finally); the resolved target is "
+    "stored only after the nested chain resolved; only the two alias error types are raised; every dereference of a possibly-alias "
+    "member in loader/merger/set_member is guarded, de-aliased, or handled for both errors; the fixpoint loop frame is intact. "
+    "Termination on all graphs and idempotence of a second resolve_aliases() are not decided as such.",
+    TB + "; tabled dereference exceptions each carry a reason in sa/rules/C06.py",
+)
+claim(
+    "C16",
+    "effect ownership (who-may-write `.members` / `_target`), must-pass-through on the CFG (store -> parent link, retarget -> registration), "
+    "dominance of guards (self-target test, stub-merge preconditions)",
+    "Who may write the member mappings and alias targets, and what every such write is followed/preceded by on all paths: "
+    "stores only in SetMembersMixin (deletes in DelMembersMixin), each followed by the parent/collection link; every alias retarget "
+    "registers the back-reference; the self-target guard dominates the store; replacing a member retargets its aliases first; "
+    "dotted keys recurse on the tail. The invariants over arbitrary operation sequences (heap model) are not decided; stale "
+    "`aliases` entries after deletion are the source's own FIXME.",
+    TB,
+)
 for _p in [f"C{n:02d}" for n in range(1, 20) if f"C{n:02d}" not in CLAIMED]:
     NOT_YET[_p] = "check under construction in this round (static rules designed in DESIGN.md section 3; not yet registered)"
